@@ -1,10 +1,20 @@
 """C06 - multi-hop packets: at-most-once delivery and forwarding, shrinking hop budget.
 
-Decides: duplicate-packet and duplicate-address detection dominate every delivery / forward / table update;
-hop-limit guard (received RHL >= 2) and decrement by exactly one on every forwarded copy; what a forwarded copy is
-made of (received common header, decoded extended header - DE PV refreshed only under a strict `newer` guard -,
-residual payload, in order); DPL ring bookkeeping; CBF buffering discipline.
-Does not decide: termination of floods over topologies, timer expiry points, SN wrap-around (value level).
+Decides, for every delivery / forward / table-update sink of the eight receive handlers: duplicate-address detection on
+the decoded source address precedes it on every path, and DAD raises exactly for the own address (dad-first);
+for multi-hop types the duplicate-packet check on the decoded sequence number precedes every delivery and forward, and
+no sink sits in an except handler (dpd-first); hop-limit guard (received RHL >= 2) and a Basic Header equal to
+set_rhl(received RHL - 1) on every forwarded copy, set_rhl storing its argument for all 256 values (rhl); what a
+forwarded copy is made of (copy: received common header, decoded extended header - DE PV refreshed only under a strict
+`newer` guard -, residual payload, in order; set_rhl keeps every other Basic Header field; after verification the
+security dispatcher does not hand the forwarders only the plain message behind a Basic Header re-stamped
+NH=COMMON_HEADER, i.e. a secured packet is not re-emitted unsecured); DPL ring bookkeeping (dpl-ring: raise exactly
+when the SN is a member and before any insertion, every accepted SN recorded in ring and set, eviction only when full
+and of the popped SN, no other mutation); CBF buffering discipline (cbf: a timer is armed only for a (source, SN) not
+yet buffered, a second reception removes and cancels the buffered copy, the expiry callback sends only on paths that
+found the copy still buffered; cbf-overhear: duplicates reach that cancel branch, looked up under the buffer's key).
+Does not decide: termination of floods over topologies, timer expiry points, SN wrap-around, the DPL window length
+(value level).
 """
 from __future__ import annotations
 
